@@ -429,13 +429,18 @@ def random_behaviour(b, rng, family, orientation, n_steps, acts, max_objs=6, Tma
                 ok = j is not None and len(t) + len(rec.objs[j]) <= 24
             if ok:
                 qs = ['cum_disp', 'dist', 'get_disp', 'get_pos']
-                for q in qs:
-                    getattr(rec, q)(i)
                 for what in ('msd', 'com', 'metrics'):
                     rec.read_only(i, what)
+                # the last query decides which internal representation each of the two objects is in when they are joined:
+                # all four combinations occur
+                combo = int(rng.integers(0, 4))
+                order = [q for q in rng.permutation(qs) if q != ('get_pos' if combo & 1 else 'get_disp')] + ['get_pos' if combo & 1 else 'get_disp']
+                for q in order:
+                    getattr(rec, str(q))(i)
+                getattr(rec, 'get_pos' if combo & 2 else str(rng.choice(['get_disp', 'cum_disp', 'dist'])))(j)
                 ok = rec.extend(i, j)
-                for q in qs:
-                    getattr(rec, q)(i)
+                for q in rng.permutation(qs):
+                    getattr(rec, str(q))(i)
                 for what in ('msd', 'com', 'metrics'):
                     rec.read_only(i, what)
         elif act == 'ReadOnly':
